@@ -329,6 +329,10 @@ def sf_old(interp, e, fr):
             items = list(ctx.heap[v.oid]["v"])
             ctx.heap = saved
             return ctx.alloc(v.kind, init={"v": items})
+        if isinstance(v, Ref) and v.kind in ("sdict", "dict"):
+            st = dict(ctx.heap[v.oid])
+            ctx.heap = saved
+            return ctx.alloc(v.kind, init=st)
         return v
     finally:
         ctx.heap = saved
